@@ -244,6 +244,21 @@ class FastParetoOptimalAlgorithm(BaseParetoOptimalAlgorithm):
     ascending_indices = (points[:, 0]).argsort()
     sorted_points = points[ascending_indices]
     split_index = round(len(points) / 2)
+    # Points tied with the split value in the first coordinate must all end up
+    # in the same half: the cross check below only removes *lower* points
+    # dominated by higher ones, so a higher point dominated by a lower point
+    # with the same first coordinate would wrongly stay optimal.
+    split_value = sorted_points[split_index][0]
+    split_index = np.searchsorted(sorted_points[:, 0], split_value, side='left')
+    if split_index == 0:
+      split_index = np.searchsorted(
+          sorted_points[:, 0], split_value, side='right'
+      )
+      if split_index == len(sorted_points):
+        # All points are tied in the first coordinate.
+        return np.array(
+            self._base_algorithm.is_pareto_optimal(points), dtype=bool
+        )
 
     # Recurse on both subarrays and check for cross domination.
     lower_array = sorted_points[:split_index]
